@@ -7,6 +7,7 @@ import (
 	"strconv"
 	"strings"
 	"sync"
+	"unicode"
 	"unicode/utf8"
 
 	"gircverif/drive"
@@ -271,7 +272,7 @@ func isASCII(s string) bool {
 var (
 	name20      = "abcdefghij0123456789"
 	name21      = "abcdefghij0123456789x"
-	cmdPrefixes = []string{"!", ".", "$^", "\\", "(a|b)", "[x]", "*+?", "\xc3\xa9", "", replacementRune, "a" + replacementRune, "!!", "{b}", "^", "$", "\\Q", "x", " ", "\n", "|", "-", "1", "\xe2\x82\xac!", ".*", "\\E", "(?i)", "\xff", "\xc3", "!\x80"}
+	cmdPrefixes = []string{"!", ".", "$^", "\\", "(a|b)", "[x]", "*+?", "\xc3\xa9", "", replacementRune, "a" + replacementRune, "!!", "{b}", "^", "$", "\\Q", "x", " ", "\n", "|", "-", "1", "\xe2\x82\xac!", ".*", "\\E", "(?i)", "\xff", "\xc3", "!\x80", "bot: ", "Bot,", "\xc3\x89", "k", "\xe2\x84\xaa"}
 	cmdNames    = []string{"ping", "p", "pong", "help", "a-b_9", name20, name21, "Ping", "PONG", "\xe2\x84\xaa", "\xc4\xb0x", "pi ng", "", "\xc3\xa9", "x", "s", "search", "-", "_", "0", "h", "ping\n", "a.b", "Help", "\xff", "pin\xc3\xa9"}
 	cmdSources  = []string{"nick", "Nick[x]", "irc.server.net", "", "sp ace", "n\xff", "a"}
 	cmdTargets  = []string{"me", "#chan", "&x", "#", "", "#a b", "+c", "!ABCDEname"}
@@ -315,6 +316,17 @@ func lowerKeys(cs []cmdSpec) []string {
 		}
 	}
 	return keys
+}
+
+// swapCase flips the case of every letter (the prefix is compared byte for byte, so a
+// prefix in another case is a different prefix).
+func swapCase(s string) string {
+	return strings.Map(func(r rune) rune {
+		if unicode.IsUpper(r) {
+			return unicode.ToLower(r)
+		}
+		return unicode.ToUpper(r)
+	}, s)
 }
 
 // genCmdText builds a near-miss of an invocation of one of keys with the prefix.
@@ -381,6 +393,8 @@ func genCmdText(r *rand.Rand, prefix string, keys []string) string {
 		if len(prefix) > 0 {
 			p = prefix[:len(prefix)-1]
 		}
+	case 6, 7:
+		p = swapCase(prefix)
 	}
 	return p + name + tail
 }
@@ -416,9 +430,19 @@ func init() {
 			for _, s := range []string{"\xe2\x84\xaa", "\xc4\xb0", "\xc4\xb1", "\xc5\xbf", "\xe2\x84\xab", "\xe2\x84", "\xc4", "a\xe2\x84\xaab", "\xc4\xb0\xc4\xb0", "\xef\xbf\xbd", "\xe2\x84\xaa\xff", "\xc4\xb1A", "\xe1\xba\x9e", "\xc3\x89"} {
 				out = append(out, Case{s}, Case{"X" + s}, Case{s + "Y"})
 			}
+			// every non-ASCII rune whose lower-case image is ASCII (the model knows U+0130 and
+			// U+212A; a Unicode version that adds another one shows up here as a disagreement)
+			for r := rune(0x80); r <= unicode.MaxRune; r++ {
+				if r >= 0xD800 && r <= 0xDFFF {
+					continue
+				}
+				if unicode.ToLower(r) < 0x80 {
+					out = append(out, Case{string(r)}, Case{"A" + string(r) + "z"})
+				}
+			}
 			return out
 		},
-		Exhaustive: "all single bytes, alone and between ASCII letters",
+		Exhaustive: "all single bytes, alone and between ASCII letters; every rune of Unicode whose lower-case image is ASCII",
 		Gen: func(r *rand.Rand) Case {
 			var sb strings.Builder
 			for i, n := 0, r.Intn(8); i < n; i++ {
@@ -462,7 +486,7 @@ func init() {
 			}
 			for _, p := range cmdPrefixes {
 				for _, t := range []string{"ping", "ping a b", "ping ", "ping  a", "ping a ", "ping\n", "ping a\n", "Ping", name20, name21, name20 + " a", name21 + " a", "help", "help ping", ""} {
-					out = append(out, Case{p, p + t}, Case{p, t}, Case{p, " " + p + t}, Case{p, p + p + t})
+					out = append(out, Case{p, p + t}, Case{p, t}, Case{p, " " + p + t}, Case{p, p + p + t}, Case{p, swapCase(p) + t})
 				}
 			}
 			for n := 0; n <= 23; n++ {
@@ -482,14 +506,8 @@ func init() {
 			prefix, text := c[0], c[1]
 			ch, err := cmdhandler.New(prefix)
 			if err != nil {
-				res := Result{Obs: "E", Sig: "new-fails"}
-				if utf8.ValidString(prefix) {
-					res.Oracle = "new-rejects-prefix: New fails for a valid UTF-8 prefix: " + err.Error()
-				}
-				return res
-			}
-			if !utf8.ValidString(prefix) {
-				return Result{Obs: "ok", Oracle: "new-accepts-invalid-utf8: New accepted a prefix that is not valid UTF-8", Sig: "new"}
+				// every byte string is a prefix ("all prefixes"): New has no reason to fail
+				return Result{Obs: "E", Sig: "new-fails", Oracle: "new-rejects-prefix: New fails for prefix " + strconv.Quote(prefix) + ": " + err.Error()}
 			}
 			// register every substring of the text that is a valid name
 			seen := map[string]bool{"help": true}
@@ -519,7 +537,6 @@ func init() {
 				res.Obs = fmt.Sprintf("?multi:%d invocations, %d lines", len(invs), len(lines))
 			}
 			m := specAddressed(prefix, text)
-			fffdAlias := strings.Contains(prefix, replacementRune) && !strings.HasPrefix(text, prefix)
 			switch {
 			case m == nil:
 				res.Sig = "unaddressed"
@@ -528,14 +545,15 @@ func init() {
 			default:
 				res.Sig = "addressed/" + strconv.Itoa(len(m.args))
 			}
-			if fffdAlias {
-				// documented assumption: a U+FFFD in the prefix also matches an invalid byte
-				res.Sig += "/fffd"
-				return res
+			if !utf8.ValidString(prefix) {
+				res.Sig += "/prefix-not-utf8"
 			}
 			switch {
 			case len(invs) > 1:
 				res.Oracle = "match-multiple: more than one function invoked"
+			case len(invs) > 0 && !strings.HasPrefix(text, prefix):
+				// repaired in cd20b6b (a U+FFFD of the prefix matched any invalid byte of the text)
+				res.Oracle = "invoked-without-prefix: a function ran although the text does not begin with the prefix"
 			case (m == nil || m.name == "help") && len(invs) > 0:
 				res.Oracle = "match-invokes-unaddressed: a function ran for a text that addresses no command"
 			case m != nil && m.name != "help" && len(invs) == 0:
@@ -729,11 +747,7 @@ func init() {
 			cs := decodeCmds(rest[k:])
 			ch, err := cmdhandler.New(prefix)
 			if err != nil {
-				res := Result{Obs: "E", Sig: "new-fails"}
-				if utf8.ValidString(prefix) {
-					res.Oracle = "new-rejects-prefix: " + err.Error()
-				}
-				return res
+				return Result{Obs: "E", Sig: "new-fails", Oracle: "new-rejects-prefix: New fails for prefix " + strconv.Quote(prefix) + ": " + err.Error()}
 			}
 			// the table the statement expects: the registrations Add accepted
 			type reg struct {
@@ -810,10 +824,6 @@ func init() {
 				m = specAddressed(prefix, e.Params[len(e.Params)-1])
 			}
 			res.Sig = cmdExecSig(e, m, len(invs), len(lines))
-			if strings.Contains(prefix, replacementRune) && (len(e.Params) == 0 || !strings.HasPrefix(e.Params[len(e.Params)-1], prefix)) {
-				res.Sig += "/fffd"
-				return res
-			}
 			addressed := e.Source != nil && e.Command == "PRIVMSG" && m != nil && m.name != "help"
 			var target reg
 			if addressed {
@@ -825,6 +835,8 @@ func init() {
 			switch {
 			case len(invs) > 1:
 				res.Oracle = "exec-multiple: more than one invocation for one message"
+			case len(invs) > 0 && (len(e.Params) == 0 || !strings.HasPrefix(e.Params[len(e.Params)-1], prefix)):
+				res.Oracle = "invoked-without-prefix: a function ran although the text does not begin with the prefix"
 			case !addressed && len(invs) > 0:
 				res.Oracle = "exec-invokes-unaddressed: a function ran for a message that addresses no registered command"
 			case addressed && len(m.args) < target.minArgs && len(invs) > 0:
